@@ -29,6 +29,10 @@ pub struct Plan {
     pub gt: bool,
     pub extra_keys: usize,
     pub sync: bool,
+    /// the key list also names user 1, whose transactions in this block are sweeps (everything goes to
+    /// another user, nothing back to the sender): they touch the list through their inputs only
+    #[serde(default)]
+    pub sender_listed: bool,
 }
 
 /// indices 0..exhaustive enumerate (n, pattern) for n = 0..=N completely
@@ -49,12 +53,12 @@ fn gen(seed: u64, index: u64, tier: Tier) -> Plan {
             n += 1;
         }
         let pattern = (0..n).map(|i| (k >> i) & 1 == 1).collect();
-        Plan { seed: rs, n, pattern, gt: n % 2 == 0, extra_keys: 0, sync: index % 7 == 0 }
+        Plan { seed: rs, n, pattern, gt: n % 2 == 0, extra_keys: 0, sync: index % 7 == 0, sender_listed: index % 3 == 1 }
     } else {
         let n = rng.range(0, if tier == Tier::Quick { 24 } else { 40 }) as usize;
         let dens = rng.range(1, 9);
         let pattern = (0..n).map(|_| rng.chance(dens, 10)).collect();
-        Plan { seed: rs, n, pattern, gt: rng.chance(1, 2), extra_keys: rng.below(3) as usize, sync: rng.chance(1, 5) }
+        Plan { seed: rs, n, pattern, gt: rng.chance(1, 2), extra_keys: rng.below(3) as usize, sync: rng.chance(1, 5), sender_listed: rng.chance(1, 3) }
     }
 }
 
@@ -69,7 +73,7 @@ impl Scenario for C18 {
     fn meta(&self) -> Meta {
         Meta {
             level: "exploration",
-            rule: "run = one block with n zero-fee payments placed in a chosen order, of which the pattern's positions pay the light client's key (plus optionally a golden ticket and fee transaction, and 0-2 extra keys in the client's key list touching random positions); the first runs enumerate every (n, pattern) for n = 0..6 (quick) / 0..8 (thorough), then random n <= 24/40 with touch density 10-90%. A real full node is preloaded with the chain. Projection oracle on what the fetch route serves (file -> deserialize -> generate -> generate_lite_block(key list) -> serialize): id, hash, creator, signature, previous hash, merkle root and every other header field equal the full block's; every transaction touching a listed key is present unmodified; after the wire (deserialize + generate) the hash is unchanged; the merkle root recomputed from the lite block's own transactions equals the header's, before and after the wire; the projection of the same block after its transactions were pruned from memory keeps the signed header bytes and the hash. In a fraction of the runs a real SPV node (spv mode, static peer) performs the real handshake, ghost-chain request and lite-block fetch and must end up storing the block under the advertised hash. distinct_nontrivial = distinct (n, pattern, key-list size) served as a lite block.",
+            rule: "run = one block with n zero-fee payments placed in a chosen order, of which the pattern's positions pay the light client's key (plus optionally a golden ticket and fee transaction, 0-2 extra keys in the client's key list touching random positions, and in a third of the runs a listed key that only *sends*: its transactions are sweeps with no output back to it); the first runs enumerate every (n, pattern) for n = 0..6 (quick) / 0..8 (thorough), then random n <= 24/40 with touch density 10-90%. A real full node is preloaded with the chain. Projection oracle on what the fetch route serves (file -> deserialize -> generate -> generate_lite_block(key list) -> serialize): id, hash, creator, signature, previous hash, merkle root and every other header field equal the full block's; every transaction touching a listed key is present unmodified; after the wire (deserialize + generate) the hash is unchanged; the merkle root recomputed from the lite block's own transactions equals the header's, before and after the wire; the projection of the same block after its transactions were pruned from memory keeps the signed header bytes and the hash. In a fraction of the runs a real SPV node (spv mode, static peer) performs the real handshake, ghost-chain request and lite-block fetch and must end up storing the block under the advertised hash. distinct_nontrivial = distinct (n, pattern, key-list size) served as a lite block.",
             real: &["Block::generate_lite_block", "MerkleTree::generate", "Transaction::generate_hash_for_signature (SPV)", "Block::serialize_for_net/deserialize_from_net/generate", "RoutingThread ghost-chain request/processing", "VerificationThread::verify_block", "ConsensusThread (spv)"],
             stubs: &["fetch route re-implemented with the same core calls as saito-rust/src/network_controller.rs", "SimNet", "universe builder"],
             assumptions: &["the quantifier over all blocks/key lists is sampled beyond the enumerated prefix", "fees are zero so that transaction order does not influence consensus values"],
@@ -98,6 +102,10 @@ impl Scenario for C18 {
         let extra: Vec<Key> = (0..plan.extra_keys).map(|i| derive_key(plan.seed, 300 + i as u64)).collect();
         let mut keylist: Vec<[u8; 33]> = vec![client_key.pk];
         keylist.extend(extra.iter().map(|k| k.pk));
+        if plan.sender_listed {
+            keylist.push(w.keys[1].pk);
+            r.probe("sender_in_key_list");
+        }
         // prefix of two blocks, then the block under test
         let built = crate::util::guarded(|| -> Result<(Vec<usize>, usize), String> {
             let mut cur = 0usize;
@@ -127,7 +135,9 @@ impl Scenario for C18 {
                         rest -= 3;
                     }
                 }
-                outs.push((w.keys[user].pk, rest));
+                // (a listed sender sweeps: the change goes to user 2)
+                let change_to = if plan.sender_listed && user == 1 { w.keys[2].pk } else { w.keys[user].pk };
+                outs.push((change_to, rest));
                 let tag = w.next_ts_tag();
                 txs.push(make_tx(&w.keys[user].clone(), &[inp], &outs, ts + tag, &tag.to_le_bytes()));
             }
